@@ -84,14 +84,20 @@ def c10_units(valid):
 
 def c10_build(valid, unit, v, r, new_id):
     """script with the outcome vector v (S silent, F send fault, M malformed, V valid) injected at `unit`"""
+    return c10_build_multi(valid, {unit: v}, r, new_id)
+
+
+def c10_build_multi(valid, vecs, r, new_id):
+    """the same with a vector for several units of one query at once (vecs: unit -> vector); units without a vector
+    are answered at once"""
     c, groups = _sections(valid)
     newds, faults = [], []
     for k in range(3):
-        if k != unit:
+        if k not in vecs:
             newds += groups[k]
             faults.append(False)
             continue
-        for e in v:
+        for e in vecs[k]:
             if e == "S":
                 newds.append(None)
                 faults.append(False)
